@@ -45,7 +45,7 @@ LEAN = {"module": "Pygom.Props.C18",
         "required": ["Pygom.C18.box_bounds_rows", "Pygom.C18.fit_in_box_partial", "Pygom.C18.fit_contract_partial", "Pygom.C18.fit_at_truth_partial",
                      "Pygom.C18.fit_at_truth_of_zero_residual", "Pygom.C18.box_bounds_C_counterexample", "Pygom.C18.grad_zero_at_truth"]}
 BUDGET = {"quick": {"fits": 130, "random": 20, "malformed": 14, "intbox": 24},
-          "thorough": {"fits": 3000, "random": 400, "malformed": 120, "intbox": 500}}
+          "thorough": {"fits": 2400, "random": 320, "malformed": 120, "intbox": 300}}
 RULE = ("real fit(x, lb, ub) on pygom.common_models SIR_norm / SIR / SIS / SEIR / Lotka_Volterra / SIR_Birth_Death and random closed "
         "(T-only, linear/mass-action) models; SquareLoss / NormalLoss / PoissonLoss / GammaLoss / NegBinomLoss; 1-2 observed "
         "states; all or a subset of the parameters as targets in random order; noise-free or noisy data; starts inside the box, "
@@ -170,6 +170,15 @@ def _int_box(rng, truth):
     return lb, ub
 
 
+def _intbox_ok(c):
+    """integer-valued bounds around rates below 1 mean lb = 0: a ZERO RATE is then inside the box.  That is a degenerate
+    corner of the problem, not of fit: Lotka-Volterra without predation / death has no closed orbits and blows up
+    (IntegrationError out of sensitivity), and the likelihood losses are undefined (log 0 -> nan) where a zero rate keeps an
+    observed state at 0.  Integer boxes are therefore drawn for the bounded catalogue / random models with the square and
+    normal losses only (found as false alarms of the first version of this probe, seeds 1 and 2)."""
+    return c["model"] != "Lotka_Volterra" and c["loss"] in ("SquareLoss", "NormalLoss")
+
+
 def _further_calls(rng, c):
     """1-2 more fit calls on the same loss object"""
     truth = [c["values"][p] for p in c["target"]]
@@ -177,6 +186,8 @@ def _further_calls(rng, c):
     out = []
     for _ in range(rng.choice([1, 1, 2])):
         kind = rng.choice(["exclude", "exclude", "subbox", "same", "wider", "intbox"])
+        if kind == "intbox" and not _intbox_ok(c):
+            kind = "subbox"
         forms = {"x": rng.choice(FLOAT_FORMS), "lb": rng.choice(FLOAT_FORMS), "ub": rng.choice(FLOAT_FORMS)}
         if kind == "exclude":        # the generating parameters (the optimum of the earlier call) are outside, in coordinate k
             lb = [round(v * rng.uniform(0.2, 0.9), 5) for v in truth]; ub = [round(v * rng.uniform(1.1, 3.0), 5) for v in truth]
@@ -221,6 +232,8 @@ def gen_intbox(rng):
     """integer-valued box in integer form; start at the generating parameters of (mostly) noise-free data, in the top unit
     slice, or anywhere inside"""
     c = gen_fit(rng)
+    while not _intbox_ok(c):
+        c = gen_fit(rng)
     truth = [c["values"][p] for p in c["target"]]
     c["lb"], c["ub"] = _int_box(rng, truth)
     c["start"] = rng.choice(["truth", "truth", "top_slice", "inside"])
@@ -438,8 +451,9 @@ def run_call(obj, case, call, y, k, tags, mism, viol, BL, judge=True):
             mism.append({"what": "fit:fun/jac handed to minimize", "detail": "fun is cost: %s, jac is sensitivity: %s" % (s["fun_is_cost"], s["jac_is_sens"])})
         if s["constraints"]:
             mism.append({"what": "fit:constraints", "detail": str(s["constraints"])[:200]})
-    if case.get("malformed") and err is not None:
-        # lb=None and/or ub=None: the optimiser is not confined to a box (negative rates, blow-up): outside the property
+    if (case.get("malformed") or ":unbounded-above-entry" in hist) and err is not None:
+        # lb=None and/or ub=None (or one entry of ub None / inf): the optimiser is not confined to a box (negative rates,
+        # blow-up): outside the property
         tags.append("unbounded-side:raised:" + type(err).__name__)
         return {"status": "stop", "nontrivial": True}
     if err is not None:
